@@ -27,6 +27,7 @@ CASES = {
     "GrandCanonical+ExchangeMove": dict(driver="quansino.mc.gcmc.GrandCanonical", move="exchange"),
     "GrandCanonical+ExchangeMove[FixAtoms]": dict(driver="quansino.mc.gcmc.GrandCanonical", move="exchange", constraints=("FixAtoms",), extra=()),
     "GrandCanonical+ExchangeMove[template has an extra array]": dict(driver="quansino.mc.gcmc.GrandCanonical", move="exchange", extra=(), template_extra=(("tags", (), "int"),)),
+    "GrandCanonical[HamiltonianExchangeContext]+ExchangeMove": dict(driver="quansino.mc.gcmc.GrandCanonical", move="exchange", context="quansino.mc.contexts.HamiltonianExchangeContext"),
     "HamiltonianCanonical+HamiltonianDisplacementMove": dict(driver="quansino.mc.canonical.HamiltonianCanonical", move="hamiltonian"),
 }
 
@@ -65,6 +66,14 @@ def make_sim(I, case):
         kw["exchange_atoms"] = AtomsHeap(I, n=m, tag="X", array_specs=(("numbers", (), "int"), ("positions", (3,), "float")) + tuple(extra) + tuple(case.get("template_extra", ())))
         kw["number_of_exchange_particles"] = I.path.fresh("N0", "int")
     sim = I.call(I.get_class(case["driver"]), [atoms], dict(kw, seed=1, max_cycles=1))
+    if case.get("context"):
+        # a driver configured with another shipped context class (default_context is a documented class attribute)
+        old = sim.attrs["context"]
+        ctx2 = I.call(I.get_class(case["context"]), [atoms, sim.attrs["_rng"]], {})
+        for k_ in ("temperature", "chemical_potential", "number_of_exchange_particles", "exchange_atoms", "accessible_volume"):
+            if k_ in old.attrs:
+                ctx2.attrs[k_] = old.attrs[k_]
+        sim.attrs["context"] = ctx2
     labels = SArr.base(I, "labels", n, (), "int")
     moves = []
     total = False
